@@ -1,6 +1,7 @@
 package main
 
 import (
+	"github.com/ovh/kmip-go/ttlv"
 	"github.com/ovh/kmip-go/payloads"
 	"context"
 	"fmt"
@@ -37,6 +38,18 @@ type c10StressObs struct {
 // c10RunStress: N goroutines share one client; every call carries its own identifier and a random
 // timeout; the scripted server echoes the identifier after a random delay. The schedule is the Go
 // scheduler's: the outcome is only checked against the property itself.
+// c10SlowWriter: where the debug middleware writes; sometimes slow, so that other exchanges complete meanwhile
+type c10SlowWriter struct{}
+
+var c10SlowN atomic.Int64
+
+func (c10SlowWriter) Write(p []byte) (int, error) {
+	if c10SlowN.Add(1)%7 == 0 {
+		time.Sleep(200 * time.Microsecond)
+	}
+	return len(p), nil
+}
+
 func c10RunStress(st c10Stress) (o c10StressObs) {
 	w := clisim.NewWorld(nil)
 	base1, base2 := clisim.ClientGoroutines()
@@ -52,7 +65,9 @@ func c10RunStress(st c10Stress) (o c10StressObs) {
 	}
 	client, err := kmipclient.DialContext(context.Background(), "mem",
 		kmipclient.WithDialerUnsafe(func(ctx context.Context) (net.Conn, error) { return w.Dial() }),
-		kmipclient.EnforceVersion(kmip.V1_4))
+		kmipclient.EnforceVersion(kmip.V1_4),
+		// the library's own debug middleware in the chain (it runs outside the exchange lock)
+		kmipclient.WithMiddlewares(kmipclient.DebugMiddleware(c10SlowWriter{}, ttlv.MarshalXML)))
 	if err != nil {
 		o.Err++
 		return
@@ -94,7 +109,18 @@ func c10RunStress(st c10Stress) (o c10StressObs) {
 				if i%3 == 2 {
 					// the identifier as a byte string, checked when it comes back AND after the goroutine's
 					// later calls: a response belongs to its caller for good
-					pl, err := client.Request(ctx, &payloads.EncryptRequestPayload{UniqueIdentifier: "k", Data: []byte(id)})
+					var pl kmip.OperationPayload
+					var err error
+					func() {
+						defer func() {
+							if p := recover(); p != nil {
+								pan.Add(1)
+								detail.CompareAndSwap(nil, fmt.Sprintf("call %s panicked: %v", id, p))
+								err = fmt.Errorf("panic")
+							}
+						}()
+						pl, err = client.Request(ctx, &payloads.EncryptRequestPayload{UniqueIdentifier: "k", Data: []byte(id)})
+					}()
 					cancel()
 					if ep, isE := pl.(*payloads.EncryptResponsePayload); err == nil && isE {
 						if string(ep.Data) != id {
@@ -107,6 +133,32 @@ func c10RunStress(st c10Stress) (o c10StressObs) {
 					} else {
 						er.Add(1)
 					}
+					continue
+				}
+				if i%3 == 1 {
+					// the exported Roundtrip entry point, with a hand-made message
+					func() {
+						defer func() {
+							if p := recover(); p != nil {
+								pan.Add(1)
+								detail.CompareAndSwap(nil, fmt.Sprintf("call %s panicked: %v", id, p))
+							}
+						}()
+						msg := kmip.NewRequestMessage(kmip.V1_4, &payloads.ActivateRequestPayload{UniqueIdentifier: id})
+						resp, err := client.Roundtrip(ctx, &msg)
+						switch {
+						case err != nil || resp == nil || len(resp.BatchItem) != 1:
+							er.Add(1)
+						default:
+							if pl, _ := resp.BatchItem[0].ResponsePayload.(*payloads.ActivateResponsePayload); pl == nil || pl.UniqueIdentifier != id {
+								wrong.Add(1)
+								detail.CompareAndSwap(nil, fmt.Sprintf("Roundtrip for %s received another call's response", id))
+							} else {
+								ok.Add(1)
+							}
+						}
+					}()
+					cancel()
 					continue
 				}
 				r := ccDoCall(ctx, client, id)
